@@ -435,6 +435,10 @@ func ruleDistinct(r *Run) {
 				continue
 			}
 			n++
+			if !e.Results[1].Known && lenPositiveOf(e.Results[1].V, loop, fn) {
+				// the path went through the loop body, so the ranged list is not empty
+				e.Results[1] = feVal{Known: true, C: constant.MakeBool(true), V: e.Results[1].V}
+			}
 			if !e.Results[1].Known || constant.BoolVal(e.Results[1].C) != c.want {
 				bad = true
 				o.Fail(r.pos(e.Term.Pos()), "%s: the record is %s, expected %s", c.desc, keptWord(e.Results[1]), map[bool]string{true: "kept", false: "dropped"}[c.want])
@@ -477,4 +481,63 @@ func keptWord(v feVal) string {
 		return "kept"
 	}
 	return "dropped"
+}
+
+// lenPositiveOf: v is `len(X) > 0` (or `!= 0`, `0 < len(X)`, `len(X) >= 1`) for the slice X the loop
+// ranges over (the same parameter field, re-read; never assigned in fn): true on every path that
+// entered the loop's body.
+func lenPositiveOf(v ssa.Value, loop *rangeLoop, fn *ssa.Function) bool {
+	b, ok := v.(*ssa.BinOp)
+	if !ok {
+		return false
+	}
+	x, y, op := b.X, b.Y, b.Op
+	if _, isC := x.(*ssa.Const); isC {
+		x, y = y, x
+		switch op {
+		case token.LSS:
+			op = token.GTR
+		case token.LEQ:
+			op = token.GEQ
+		case token.GTR:
+			op = token.LSS
+		case token.GEQ:
+			op = token.LEQ
+		}
+	}
+	k, isK := constInt(y)
+	if !isK {
+		return false
+	}
+	if !((op == token.GTR && k == 0) || (op == token.NEQ && k == 0) || (op == token.GEQ && k == 1)) {
+		return false
+	}
+	lc, ok := x.(*ssa.Call)
+	if !ok {
+		return false
+	}
+	if bi, ok := lc.Call.Value.(*ssa.Builtin); !ok || bi.Name() != "len" || len(lc.Call.Args) != 1 {
+		return false
+	}
+	arg := lc.Call.Args[0]
+	if arg != loop.X {
+		fa, ba, oka := loadOfField(arg)
+		fb, bb, okb := loadOfField(loop.X)
+		if !oka || !okb || fa != fb || originValue(ba) != originValue(bb) {
+			return false
+		}
+		// the field is not assigned in the function
+		assigned := false
+		allInstrs(fn, func(in ssa.Instruction) {
+			if st, ok := in.(*ssa.Store); ok {
+				if f, _, ok := fieldNameOf(st.Addr); ok && f == fa {
+					assigned = true
+				}
+			}
+		})
+		if assigned {
+			return false
+		}
+	}
+	return true
 }
